@@ -171,7 +171,14 @@ where
         }
     }
 
+    let mut steps = 0;
+
     while !queue.is_empty() {
+        if steps > DEFAULT_MAX_ANALYSIS_STEPS {
+            return Err(Error::FixedPointMaxSteps);
+        }
+        steps += 1;
+
         let location = queue.pop_front().unwrap();
 
         let location_successors = location.forward()?;
